@@ -572,7 +572,96 @@ def check_eval_globals(repo, rep):
     rep.count(eval_global_writes=n)
 
 
+MUTABLE_MAKERS = ('set', 'dict', 'list', 'defaultdict', 'OrderedDict',
+                  'deque', 'Counter', 'bytearray')
+ENGINE_MODULES = ('yaql.language.lexer', 'yaql.language.parser',
+                  'yaql.language.factory')
+
+
+def _mutable_value(v):
+    if isinstance(v, (ast.List, ast.Dict, ast.Set, ast.ListComp,
+                      ast.DictComp, ast.SetComp)):
+        return True
+    if isinstance(v, ast.Call):
+        f = v.func
+        last = f.id if isinstance(f, ast.Name) else f.attr if isinstance(
+            f, ast.Attribute) else None
+        return last in MUTABLE_MAKERS
+    return False
+
+
+def check_engine_state_is_per_engine(repo, rep):
+    """R01f.  What a lexer / parser / factory / engine object remembers must
+    live on the instance.  A container bound in the class body (or at module
+    level) is one object for every engine of the process: filling it from a
+    method makes the parse of one engine depend on which other engines were
+    ever built."""
+    n = 0
+    for modname in ENGINE_MODULES:
+        mod = repo.module(modname)
+        module_level = {}
+        for st in mod.tree.body:
+            if isinstance(st, ast.Assign) and _mutable_value(st.value):
+                for t in st.targets:
+                    if isinstance(t, ast.Name):
+                        module_level[t.id] = st
+        for ci in mod.classes.values():
+            class_level = {}
+            for st in ci.node.body:
+                if isinstance(st, ast.Assign) and _mutable_value(st.value):
+                    for t in st.targets:
+                        if isinstance(t, ast.Name):
+                            class_level[t.id] = st
+                elif isinstance(st, ast.AnnAssign) and st.value is not None \
+                        and _mutable_value(st.value) and isinstance(
+                            st.target, ast.Name):
+                    class_level[st.target.id] = st
+            instance_bound = set(class_attr_origins(repo, ci))
+            for m in ci.methods.values():
+                ps = m.params()
+                selfn = ps[0] if ps else None
+                locs = model.scope_locals(m)
+                for w in effects.writes_in(m.node):
+                    if w.kind in ('attr', 'global', 'nonlocal', 'aug-name',
+                                  'del-attr'):
+                        if not (w.kind == 'attr' and isinstance(
+                                w.target, ast.Attribute) and isinstance(
+                                w.target.value, ast.Name) and
+                                w.target.value.id in ('cls', ci.node.name)):
+                            continue
+                    n += 1
+                    bad = None
+                    if w.root == selfn and w.chain:
+                        first = w.chain[0][1:] if w.chain[0].startswith(
+                            '.') else None
+                        if first in class_level and \
+                                first not in instance_bound:
+                            bad = 'the class-level container %s.%s' % (
+                                ci.node.name, first)
+                    elif w.root in ('cls', ci.node.name, 'type') or (
+                            isinstance(w.target, ast.Attribute) and
+                            isinstance(w.target.value, ast.Call) and
+                            model.norm(w.target.value.func) == 'type'):
+                        bad = 'the class object %s' % ci.node.name
+                    elif w.root in module_level and w.root not in locs:
+                        bad = 'the module-level container %s' % w.root
+                    rep.ob('R01f', '%s/%s' % (m.key, model.norm(
+                        w.target)[:40]), bad is None,
+                        '%s writes into %s, which every engine of the '
+                        'process shares: what one engine lexes / parses '
+                        'then depends on which other engines were built, '
+                        'not only on its own operator table' % (
+                            m.qualname, bad), loc=mod.loc(w.node),
+                        construct=model.norm(w.node))
+    rep.floor('stores in lexer / parser / factory methods', n, 10)
+    return n
+
+
 def run(repo, rep):
+    rep.rule('R01f', 'ENGINE-STATE-IS-PER-ENGINE: methods of the lexer, '
+             'parser, factory and engine classes store into the instance, '
+             'never into a container bound in the class body or at module '
+             'level (shared by every engine of the process)')
     rep.rule('R01a', 'LEXER-PER-CALL: the lexer handed to ply parse() is '
              'created inside the call (clone()/lex.lex()), thread-local, or '
              'the call is serialised by an engine lock')
@@ -603,3 +692,4 @@ def run(repo, rep):
     check_error_hook(repo, rep)
     check_parser_state_reads(repo, rep)
     check_eval_globals(repo, rep)
+    check_engine_state_is_per_engine(repo, rep)
